@@ -903,8 +903,8 @@ func (fr *Frame) foldedObligation(kind string, cl *Clause, from *Spec, se *specE
 		}
 		break
 	}
-	if cur.Op != "call" {
-		return nil
+	if cur.Op != "call" || specUsesOld(cur) {
+		return nil // two-state predicates are never assumed and proved over the same pair of states
 	}
 	c.lastAtom = ""
 	{
